@@ -18,6 +18,8 @@ import CamVerif.Proofs.C02Kernel
 import CamVerif.Props.C01
 import CamVerif.Proofs.C02GenTie
 import CamVerif.Proofs.C02Cached
+import CamVerif.Proofs.C02CachedSib
+import CamVerif.Model.BitMaskStruct
 namespace CamVerif.C02
 open CamVerif CamVerif.Reg CamVerif.BitMask CamVerif.Spec.Codec CamVerif.Proofs.C02
 open CamVerif.Proofs.C01 (afterRead afterWrite)
@@ -861,6 +863,115 @@ theorem siblings_on_device_spec (p : Profile) (port : Port) (hp : port.hasChunkI
     simp only [expected, expectedInt, toField]
     rw [Proofs.C02K.specExtract_toInt _ _ _ _ hle hlt, regWord_toNat e address n wf.1 d]
 
+/-! ## `StructReg` entries ARE such masked nodes (model of `into_masked_int_regs`) -/
+
+/-- **struct_entry_is_masked_node**: the expansion `StructRegNode::into_masked_int_regs`
+(`Model/BitMaskStruct.lean`, tied by the `c02 s<op>` requests of the harness) yields one node per
+entry, in document order; node `k` has the StructReg's address, length and byte order and entry
+`k`'s mask and sign, and its `value / set_value / min / max` are `MaskedIntReg`'s with exactly these
+parameters — the same `BitMask` functions, fed by the entry's lsb / msb / sign and the StructReg's
+endianness / length.  So every theorem above about a `MaskedIntReg` node is a theorem about a
+`StructEntry`. -/
+theorem struct_entry_is_masked_node (r : StructReg) :
+    r.intoMaskedIntRegs.length = r.entries.length ∧
+    ∀ (k : Nat) (ent : StructEntry), r.entries[k]? = some ent →
+      ∃ node, r.intoMaskedIntRegs[k]? = some node ∧
+        node.address = r.address ∧ node.length = r.length ∧ node.e = r.e ∧
+        node.bm = ent.bm ∧ node.s = ent.s ∧
+        (∀ p port d, node.value p port d = MaskedIntReg.value p port ent.bm r.e ent.s r.address r.length d) ∧
+        (∀ p port v d, node.setValue p port v d =
+          MaskedIntReg.setValue p port ent.bm r.e ent.s r.address r.length v d) ∧
+        (∀ p, node.min p = ent.bm.min p (lenUsize r.length) r.e ent.s) ∧
+        (∀ p, node.max p = ent.bm.max p (lenUsize r.length) r.e ent.s) := by
+  refine ⟨by simp [StructReg.intoMaskedIntRegs], ?_⟩
+  intro k ent hk
+  refine ⟨ent.intoMaskedIntReg r.address r.length r.e, ?_, rfl, rfl, rfl, rfl, rfl,
+    fun _ _ _ => rfl, fun _ _ _ _ => rfl, fun _ => rfl, fun _ => rfl⟩
+  simp [StructReg.intoMaskedIntRegs, hk]
+
+/-- the device after a history of uncached `set_value(v)` calls through the NODES a StructReg
+expands to (`(k, v)` = write `v` through node number `k`) -/
+def runNodes (p : Profile) (port : Port) (nodes : List MaskedNode) : Dev → List (Nat × I64) → Dev
+  | d, [] => d
+  | d, op :: ops =>
+    match nodes[op.1]? with
+    | some node => runNodes p port nodes (node.setValue p port op.2 d).2 ops
+    | none => runNodes p port nodes d ops
+
+/-- the field descriptions of a StructReg's entries -/
+def entryDescs (r : StructReg) : List FieldDesc := r.entries.map fun ent => ⟨ent.bm, ent.s⟩
+
+private theorem runNodes_eq_runDev (p : Profile) (port : Port) (r : StructReg) (n : Nat)
+    (hlen : r.length = n) (ops : List (Nat × I64)) (d : Dev) :
+    runNodes p port r.intoMaskedIntRegs d ops = runDev p port n r.e r.address (entryDescs r) d ops := by
+  induction ops generalizing d with
+  | nil => rfl
+  | cons op ops ih =>
+    have hN : r.intoMaskedIntRegs[op.1]? =
+        (r.entries[op.1]?).map (fun ent => ent.intoMaskedIntReg r.address r.length r.e) := by
+      simp [StructReg.intoMaskedIntRegs]
+    have hD : (entryDescs r)[op.1]? = (r.entries[op.1]?).map (fun ent => (⟨ent.bm, ent.s⟩ : FieldDesc)) := by
+      simp [entryDescs]
+    simp only [runNodes, runDev, hN, hD]
+    cases hk : r.entries[op.1]? with
+    | none => simp only [Option.map_none]; exact ih d
+    | some ent =>
+      simp only [Option.map_some, MaskedNode.setValue, StructEntry.intoMaskedIntReg, hlen]
+      exact ih _
+
+/-- **struct_entries_siblings**: the entries of ONE `StructReg` (length in {1,2,4,8}, every
+entry's description well formed for the StructReg's length and byte order) whose normalised bit
+ranges are pairwise disjoint satisfy the hypotheses of `siblings` / `siblings_on_device`: after
+ANY interleaved history of `set_value` calls through the expanded nodes — accepted or refused —
+`value()` of every entry's node returns its last accepted written value, or its initial content,
+and no device byte outside the register changed (caching off, plain port, answering device). -/
+theorem struct_entries_siblings (p : Profile) (port : Port) (hp : port.hasChunkId = false)
+    (r : StructReg) (n : Nat) (hlen : r.length = n)
+    (hwf : ∀ ent ∈ r.entries, WF n r.e ent.bm)
+    (hdis : ∀ i j (hi : i < r.entries.length) (hj : j < r.entries.length), i ≠ j →
+      (toField n r.e ⟨r.entries[i].bm, r.entries[i].s⟩).Disjoint
+        (toField n r.e ⟨r.entries[j].bm, r.entries[j].s⟩))
+    (d : Dev) (hd : d.Reliable) (ops : List (Nat × I64)) (j : Nat) (hj : j < r.entries.length) :
+    ∃ node, r.intoMaskedIntRegs[j]? = some node ∧
+      (node.value p port (runNodes p port r.intoMaskedIntRegs d ops)).1 =
+        .ok (expected (toField n r.e ⟨r.entries[j].bm, r.entries[j].s⟩) (regWord r.e r.address n d)
+              (lastWritten ((entryDescs r).map (toField n r.e)) j none ops)) ∧
+      (∀ x, x < r.address ∨ r.address + (n : Int) ≤ x →
+        (runNodes p port r.intoMaskedIntRegs d ops).mem x = d.mem x) := by
+  have hlenD : (entryDescs r).length = r.entries.length := by simp [entryDescs]
+  have hgetD : ∀ k (hk : k < r.entries.length),
+      (entryDescs r)[k]'(by rw [hlenD]; exact hk) = ⟨r.entries[k].bm, r.entries[k].s⟩ := by
+    intro k hk; simp [entryDescs]
+  have hwfD : ∀ fd ∈ entryDescs r, WF n r.e fd.bm := by
+    intro fd hfd
+    obtain ⟨ent, hent, rfl⟩ := List.mem_map.mp hfd
+    exact hwf ent hent
+  have hdisD : ∀ i k (hi : i < (entryDescs r).length) (hk : k < (entryDescs r).length), i ≠ k →
+      (toField n r.e (entryDescs r)[i]).Disjoint (toField n r.e (entryDescs r)[k]) := by
+    intro i k hi hk hne
+    rw [hgetD i (by rw [← hlenD]; exact hi), hgetD k (by rw [← hlenD]; exact hk)]
+    exact hdis i k _ _ hne
+  obtain ⟨h1, h2⟩ := siblings_on_device p port hp n r.e r.address (entryDescs r) hwfD hdisD d hd ops j
+    (by rw [hlenD]; exact hj)
+  rw [hgetD j hj] at h1
+  refine ⟨r.entries[j].intoMaskedIntReg r.address r.length r.e, ?_, ?_, ?_⟩
+  · simp [StructReg.intoMaskedIntRegs, hj]
+  · rw [runNodes_eq_runDev p port r n hlen]
+    simp only [MaskedNode.value, StructEntry.intoMaskedIntReg, hlen]
+    exact h1
+  · rw [runNodes_eq_runDev p port r n hlen]
+    exact h2
+
+/-- non-vacuity: a 2-byte big-endian StructReg with three entries (one signed, one single bit) -/
+example :
+    let r : StructReg := ⟨0x100, 2, .be, [⟨.range 15 12, .unsigned⟩, ⟨.range 11 4, .signed⟩, ⟨.singleBit 0, .unsigned⟩]⟩
+    (∀ ent ∈ r.entries, WF 2 r.e ent.bm) ∧
+    (toField 2 r.e ⟨.range 15 12, .unsigned⟩).Disjoint (toField 2 r.e ⟨.range 11 4, .signed⟩) ∧
+    (toField 2 r.e ⟨.range 11 4, .signed⟩).Disjoint (toField 2 r.e ⟨.singleBit 0, .unsigned⟩) ∧
+    (toField 2 r.e ⟨.range 15 12, .unsigned⟩).Disjoint (toField 2 r.e ⟨.singleBit 0, .unsigned⟩) ∧
+    r.intoMaskedIntRegs.map (·.address) = [0x100, 0x100, 0x100] := by
+  decide
+
 /-- **gen_fn_tie** (tie by regeneration, function bodies): the Lean functions that `rs2lean`
 re-translates from the CURRENT Rust source on every run (FnBitMask) are equal, for every input and both
 build profiles, to the hand-written model functions the theorems above are about. -/
@@ -931,24 +1042,145 @@ example :
   intro n a d hm
   simp at hm
 
-/- `siblings_cached` (full-strength statement, NOT proved as one theorem; kept here as a note):
+/-! ### `siblings_cached`: the sibling statement itself with the DEFAULT cache store
 
-   def siblings_cached_statement : Prop :=
-     ∀ p base len e fs d (h : history of value/set_value on the fields of `sibGraph base len e fs`),
-       (fields well formed and pairwise disjoint, device healthy) →
-       after the history under the DEFAULT cache store every `value()` returns the field's last
-       accepted written value (else its initial content) and the device word has every field equal
-       to its last written value and all other bits initial.
+Vocabulary (all in `Proofs/C02CachedSib.lean`): `HOp` = `get k` (`value()` of field `k`) or
+`set k v` (`set_value(v)`), `NF` = normalised field (sign, lsb `l`, width `w`), `norm` =
+`BitMask::{lsb,msb}` normalisation of a description, `NF.read f U` = reading of the field in the
+unsigned register word `U` (`siblings_cached_read_is_field`: it is `Spec.Codec.fieldU/fieldS`),
+`word e base len d` = unsigned reading of the device bytes `[base, base+len)` in the declared byte
+order, `lastOk k none (h.zip results)` = last value written to field `k` by a `set_value` that
+RETURNED `Ok` (bookkeeping over the results of the run itself), `expect f U0 (some v) = v`,
+`expect f U0 none = f.read U0`, `SetOutcome rejW f v r` = out of range ⇒ `r = InvalidData`; in range ⇒
+`r = Ok` or (the device rejected the write attempt) `r = Err(Device)`; in range and no scripted
+rejection ⇒ `r = Ok`. -/
 
-   What is proved: `siblings_cached_transparent` (cached run = uncached run of C04's model, for
-   every device and history) and `siblings_on_device` (the statement for the uncached run of THIS
-   property's model), plus the codec bridges `cache_applyMask_is_field` / `value_is_spec_field`
-   (both models' field reading = `Spec.Codec.fieldU/fieldS`).
-   What is missing to chain them into one theorem: the interpreter-level bridging lemma
-   "`Cache.runHist sinkCache` on `sibGraph` = `runDev` (MaskedIntReg.setValue of Model.BitMask on
-   Reg.Dev)" between the two hand-written models of the same Rust functions — in particular
-   `Cache.maskedValue` (Nat arithmetic: clear the field, add the shifted value) = `specMerge`
-   (BitVec and/or), and C04's list-image device = `Reg.Mem`.  Each model is tied to the Rust code by
-   its own differential run. -/
+open Proofs.C02CachedSib in
+/-- **siblings_cached**: a conforming device (`Conf`: the register is inside the image, no static
+no-access / no-write range touches it and no write is left half applied — a write the device
+acts on applies completely; the device MAY reject any scripted set of write attempts atomically,
+`rejW` is arbitrary), any number of well-formed
+(`FieldOk`) bit fields of ONE register with pairwise disjoint normalised bit ranges, every
+per-field caching mode, every sign, both byte orders, both build profiles, all fields naming
+each other as `pInvalidator` (`sibGraph`), the DEFAULT cache store, and ANY interleaved history
+`h` of `value()` / `set_value(v)` calls on the fields.  Then, for the cached build:
+(1) every `value()` of field `k` in the history succeeds and returns the last value
+    SUCCESSFULLY written to field `k` before it (its `set_value` returned `Ok`; refused and
+    device-rejected writes do not count) — or the field's content in the initial device word if
+    there was none (warm caches never serve a stale sibling, a failed write disturbs nothing);
+(2) every `set_value(v)` returns `InvalidData` when `v` is outside the field's range, else `Ok`
+    or — when the device rejects the write attempt — `Err(Device)` (`SetOutcome`);
+(3) in the final device word every field reads its last successfully written value (else its
+    initial content);
+(4) every bit of the final device word that belongs to no field equals the initial bit;
+(5) no device byte outside the register changed. -/
+theorem siblings_cached (p : Profile) (base : Int) (len : Nat) (hn : IntLen len) (e : Cache.Endian)
+    (fs : List Proofs.C02Cached.SibField) (hok : ∀ f ∈ fs, FieldOk len e f)
+    (hdis : ∀ i (hi : i < fs.length) j (hj : j < fs.length), i ≠ j →
+      (norm len e fs[i]).Disjoint (norm len e fs[j]))
+    (d : Cache.Dev) (hc : Conf d base len) (h : List HOp) :
+    let g := Proofs.C02Cached.sibGraph base len e fs
+    let nfs := nfsOf len e fs
+    let U0 := word e base len d
+    let R := Cache.runHist Cache.defaultCache p g (Cache.initDefault g d) (h.map HOp.toOp)
+    (∀ (idx k : Nat) (f : NF), h[idx]? = some (.get k) → nfs[k]? = some f →
+      R.1[idx]? = some (.ok (.int (expect f U0 (lastOk k none ((h.zip R.1).take idx)))))) ∧
+    (∀ (idx k : Nat) (v : Int) (f : NF), h[idx]? = some (.set k v) → nfs[k]? = some f →
+      ∃ r, R.1[idx]? = some r ∧ SetOutcome d.rejW f v r) ∧
+    (∀ (k : Nat) (f : NF), nfs[k]? = some f →
+      f.read (word e base len R.2.dev) = expect f U0 (lastOk k none (h.zip R.1))) ∧
+    (∀ i, (∀ f ∈ nfs, ¬ (f.l ≤ i ∧ i < f.l + f.w)) →
+      (word e base len R.2.dev).testBit i = U0.testBit i) ∧
+    (∀ i, i < base.toNat ∨ base.toNat + len ≤ i → R.2.dev.mem[i]? = d.mem[i]?) := by
+  apply Proofs.C02CachedSib.siblings_cached p base len hn e fs hok _ d hc h
+  intro i j f g hne hi hj
+  rw [nfsOf_get] at hi hj
+  cases hfi : fs[i]? with
+  | none => rw [hfi] at hi; cases hi
+  | some a =>
+    cases hfj : fs[j]? with
+    | none => rw [hfj] at hj; cases hj
+    | some b =>
+      rw [hfi] at hi; rw [hfj] at hj
+      simp only [Option.map_some, Option.some.injEq] at hi hj
+      obtain ⟨hil, hia⟩ := List.getElem?_eq_some_iff.mp hfi
+      obtain ⟨hjl, hjb⟩ := List.getElem?_eq_some_iff.mp hfj
+      have := hdis i hil j hjl hne
+      rw [hia, hjb, hi, hj] at this
+      exact this
+
+open Proofs.C02CachedSib in
+/-- the reading used in `siblings_cached` is the independent codec's bit field: `fieldU`, read
+as two's complement (`fieldS`) when the field is signed -/
+theorem siblings_cached_read_is_field (f : NF) (hw : 0 < f.w) (U : Nat) :
+    f.read U = (match f.s with
+      | .signed => fieldS f.l (f.l + f.w - 1) U
+      | .unsigned => (fieldU f.l (f.l + f.w - 1) U : Int)) :=
+  Proofs.C02CachedSib.read_is_field f hw U
+
+open Proofs.C02CachedSib in
+/-- the reference step used in `siblings_cached` IS the uncached model's step: one `value` /
+`set_value` of the build without cache on a conforming device returns the reference result and
+leaves the reference state (register word, write-attempt counter) in the device -/
+theorem siblings_sink_step (p : Profile) (base : Int) (len : Nat) (hn : IntLen len) (e : Cache.Endian)
+    (fs : List Proofs.C02Cached.SibField) (hok : ∀ f ∈ fs, FieldOk len e f) (op : HOp) (d : Cache.Dev)
+    (hc : Conf d base len) :
+    ∃ d', Cache.run Cache.sinkCache p (Proofs.C02Cached.sibGraph base len e fs) ⟨(), d⟩ op.toOp =
+        ((specStep d.rejW (nfsOf len e fs) (stOf e base len d) op).1, ⟨(), d'⟩) ∧
+      Conf d' base len ∧ d'.rejW = d.rejW ∧
+      stOf e base len d' = (specStep d.rejW (nfsOf len e fs) (stOf e base len d) op).2 ∧
+      Frame base len d d' :=
+  Proofs.C02CachedSib.sink_step p base len hn e fs hok op d hc
+
+section SiblingsCachedExample
+open Proofs.C02CachedSib Proofs.C02Cached
+
+/-- four fields of an 8-byte register at address 1: unsigned 0..3 (WriteThrough), signed 4..11
+(WriteAround), unsigned 60..63 (contains bit 63, NoCache), signed 32..47 (WriteThrough) -/
+private def exFs : List SibField :=
+  [⟨.unsigned, 0, 3, .writeThrough⟩, ⟨.signed, 4, 11, .writeAround⟩, ⟨.unsigned, 60, 63, .noCache⟩,
+   ⟨.signed, 32, 47, .writeThrough⟩]
+private def exDev : Cache.Dev :=
+  ⟨[0xAA, 0xC3, 0xA5, 0x11, 0x22, 0x33, 0x44, 0x75, 0xBB], [], [], [], [], 0, []⟩
+private def exH : List HOp :=
+  [.get 0, .get 1, .get 2, .get 3, .set 1 (-2), .set 0 9, .set 2 15, .set 0 99, .set 3 (-300),
+   .get 0, .get 1, .get 2, .get 3, .set 2 8]
+
+/-- non-vacuity of every hypothesis of `siblings_cached` -/
+example : (∀ f ∈ exFs, FieldOk 8 .le f) ∧
+    (∀ i (hi : i < exFs.length) j (hj : j < exFs.length), i ≠ j →
+      (norm 8 .le exFs[i]).Disjoint (norm 8 .le exFs[j])) ∧
+    Conf exDev 1 8 ∧ IntLen 8 := by
+  refine ⟨by decide, by decide, ⟨by decide, by decide, by decide, by decide, rfl⟩, by decide⟩
+
+/-- … and what the theorem says on it: warm caches, writes through three fields (one signed,
+one containing bit 63), a refused write (99 into 4 bits), reads after the writes -/
+example :
+    let g := sibGraph 1 8 .le exFs
+    (Cache.runHist Cache.defaultCache Profile.dev g (Cache.initDefault g exDev) (exH.map HOp.toOp)).1 =
+      [.ok (.int 3), .ok (.int 92), .ok (.int 11), .ok (.int 17459), .ok .unit, .ok .unit, .ok .unit,
+       .err .invalidData, .ok .unit, .ok (.int 9), .ok (.int (-2)), .ok (.int 15), .ok (.int (-300)),
+       .ok .unit] ∧
+    (Cache.runHist Cache.defaultCache Profile.dev g (Cache.initDefault g exDev) (exH.map HOp.toOp)).2.dev.mem =
+      [0xAA, 0xE9, 0xAF, 0x11, 0x22, 0xD4, 0xFE, 0x75, 0x8B] ∧
+    NoPortWrite (exH.map HOp.toOp) := by
+  refine ⟨by decide +kernel, by decide +kernel, noPortWrite_map exH⟩
+
+/-- the same history on a device that rejects its write attempts number 1 and 3 (atomically): the
+two `set_value`s fail with `Err(Device)`, their fields keep the previous content (field 0 still
+reads 3, field 3 still 17459), the other writes land -/
+example :
+    let g := sibGraph 1 8 .le exFs
+    let dev : Cache.Dev := { exDev with rejW := [1, 3] }
+    Conf dev 1 8 ∧
+    (Cache.runHist Cache.defaultCache Profile.dev g (Cache.initDefault g dev) (exH.map HOp.toOp)).1 =
+      [.ok (.int 3), .ok (.int 92), .ok (.int 11), .ok (.int 17459), .ok .unit, .err .device, .ok .unit,
+       .err .invalidData, .err .device, .ok (.int 3), .ok (.int (-2)), .ok (.int 15), .ok (.int 17459),
+       .ok .unit] ∧
+    (Cache.runHist Cache.defaultCache Profile.dev g (Cache.initDefault g dev) (exH.map HOp.toOp)).2.dev.mem =
+      [0xAA, 0xE3, 0xAF, 0x11, 0x22, 0x33, 0x44, 0x75, 0x8B] := by
+  refine ⟨⟨by decide, by decide, by decide, by decide, rfl⟩, by decide +kernel, by decide +kernel⟩
+
+end SiblingsCachedExample
 
 end CamVerif.C02
